@@ -4,6 +4,7 @@ import (
 	"encoding/json"
 	"flag"
 	"fmt"
+	"go/token"
 	"math/rand"
 	"os"
 	"path/filepath"
@@ -154,6 +155,54 @@ func cmdC05(args []string) {
 	cnt := core.NewCounter()
 	infos := core.Infos()
 	rng := rand.New(rand.NewSource(*seed))
+
+	// Constructing checkers under non-default parameters must leave the registered parameter values as
+	// the configuration set them: every boolean flipped (the rule-file checker's included), then every
+	// integer set to 1.
+	{
+		defaults := core.ParamSnapshot()
+		for _, vec := range []string{"bools-flipped", "ints-one"} {
+			over := map[string]map[string]interface{}{}
+			for name, ps := range defaults {
+				for k, v := range ps {
+					var nv interface{}
+					switch v := v.(type) {
+					case bool:
+						if vec == "bools-flipped" {
+							nv = !v
+						}
+					case int:
+						if vec == "ints-one" {
+							nv = 1
+						}
+					}
+					if nv != nil {
+						if over[name] == nil {
+							over[name] = map[string]interface{}{}
+						}
+						over[name][k] = nv
+					}
+				}
+			}
+			core.SetParams(over)
+			before := core.ParamSnapshot()
+			ctx := linter.NewContext(token.NewFileSet(), nil)
+			for _, info := range infos {
+				core.SafeNew(ctx, info)
+				cnt.Add("constructions_under_non_default_parameters", 1)
+			}
+			after := core.ParamSnapshot()
+			for name, ps := range before {
+				for k, v := range ps {
+					if fmt.Sprintf("%T:%v", v, v) != fmt.Sprintf("%T:%v", after[name][k], after[name][k]) {
+						out.Emit(core.V("C05", "registry-mutated-by-constructors:"+name+"."+k, fmt.Sprintf("constructing %s with %s changed the registered parameter %s from %v to %v", name, vec, k, v, after[name][k]),
+							map[string]interface{}{"checker": name, "param": k, "vector": vec, "before": v, "after": after[name][k]}))
+					}
+				}
+			}
+			core.ParamRestore(defaults)
+		}
+	}
 
 	orders := [][]int{}
 	n := len(infos)
